@@ -17,13 +17,13 @@ StepFailing(tr, i) ==
   LET e == tr.steps[i]
       s == SeqSet(tr.steps[i - 1].used)
       t == SeqSet(e.used)
-  IN CASE e.op \in {"alloc", "allocGap", "allocIn"} ->
+  IN CASE e.op \in {"alloc", "allocGap", "allocIn", "allocFree", "allocAgain"} ->
             IF e.raised # "" THEN {"Succeeds"} \cup (IF t = s THEN {} ELSE {"ExistingKept"})
             ELSE Failing(tr.kind, s, e.new, t)
        [] e.op = "release" -> IF e.raised = "" /\ t = s \ {e.arg} THEN {} ELSE {"ReleaseReleases"}
        [] OTHER -> IF t = s /\ e.raised = "" THEN {} ELSE {"ExistingKept"}
 Bad(tr) == {i \in 2..Len(tr.steps) : StepFailing(tr, i) # {}}
-Drift(tr) == {i \in 2..Len(tr.steps) : tr.steps[i].op \in {"alloc", "allocGap", "allocIn"} /\ tr.steps[i].new # tr.steps[i].exp}
+Drift(tr) == {i \in 2..Len(tr.steps) : tr.steps[i].op \in {"alloc", "allocGap", "allocIn", "allocFree", "allocAgain"} /\ tr.steps[i].new # tr.steps[i].exp}
 Rejected == {k \in DOMAIN Traces : Bad(Traces[k]) # {}}
 ASSUME \A k \in Rejected : LET tr == Traces[k] i == Min(Bad(tr))
                            IN PrintT(<<"VERDICT", ToJson([id |-> tr.id, kind |-> tr.kind, step |-> i, op |-> tr.steps[i].op,
@@ -31,7 +31,7 @@ ASSUME \A k \in Rejected : LET tr == Traces[k] i == Min(Bad(tr))
 Drifted == {k \in DOMAIN Traces : Drift(Traces[k]) # {}}
 ASSUME \A k \in Drifted : PrintT(<<"DRIFT", ToJson([id |-> Traces[k].id, steps |-> SetToSeq(Drift(Traces[k]))])>>)
 ASSUME PrintT(<<"SUMMARY", ToJson([traces |-> Len(Traces), rejected |-> Cardinality(Rejected), drift |-> Cardinality(Drifted),
-                                   allocs |-> FoldLeft(LAMBDA a, tr : a + Cardinality({i \in DOMAIN tr.steps : tr.steps[i].op \in {"alloc", "allocGap", "allocIn"}}), 0, Traces)])>>)
+                                   allocs |-> FoldLeft(LAMBDA a, tr : a + Cardinality({i \in DOMAIN tr.steps : tr.steps[i].op \in {"alloc", "allocGap", "allocIn", "allocFree", "allocAgain"}}), 0, Traces)])>>)
 Init == dummy = 0
 Next == UNCHANGED dummy
 =============================================================================
